@@ -195,6 +195,16 @@ let () =
               incr stats_steps;
               (* result line *)
               let res = (match peek () with Some r -> advance (); r | None -> raise (Syntax "trace ended early")) in
+              (* optional direct const-argument check printed by the harness before the result line *)
+              let res = (match split res with
+                | "argck" :: fields ->
+                    if not !dead then begin
+                      bump ("argck:" ^ !dom);
+                      let bad = List.filter (fun f -> not (String.length f > 2 && String.sub f (String.length f - 2) 2 = "=1")) fields in
+                      report "const-arg-direct" line (Printf.sprintf "the const argument, compared on copies taken before and after the call with the library's own ==, contains, OK(): %s" (String.concat " " fields)) (Some (bad = []))
+                    end;
+                    (match peek () with Some r -> advance (); r | None -> raise (Syntax "trace ended early"))
+                | _ -> res) in
               let rt = split res in
               (match rt with "res" :: _ -> () | "HARNESS-ERROR" :: _ -> Printf.printf "HARNESS %s\n" res; exit 3 | _ -> raise (Syntax ("expected res: " ^ res)));
               let exn = (match rt with "res" :: "exn" :: _ -> true | _ -> false) in
